@@ -276,6 +276,7 @@ def run(prop, tier, seed):
         cross_process(out, tier, seed)
     else:
         swnm_cases(out, rng, consts["swnm"], N // 2, lines, reals)
+        switch_numbers_through_a_save(out)
     try:
         model = run_driver(lines)
         for ln, m, r in zip(lines, model, reals):
@@ -312,6 +313,101 @@ def canon(result, table, batch, kind="mrgn"):
         tuple(sorted(e for e in new if e in carried)),
         tuple(sorted(k for s, k in new if (s, k) not in carried)),
     )
+
+
+def switch_numbers_through_a_save(out):
+    """whole unedited saves (real decode + rebuild + encode) of maps whose triggers refer to switches 3, 6, 101, 113 and
+    255 by number: with a switch-name table naming some / none of them, and WITHOUT the (optional) SWNM section.  Every
+    switch already has its slot — its number — so it keeps it, and no two of them end up on one slot.  Judged on the
+    TRIG bytes by the specification's field positions (deterministic inputs: nothing here is drawn at random)."""
+    import struct
+
+    import refchk
+    from mapgen import MapGen
+    from rich_h import real_cycle
+
+    spec = load_spec()
+    gen = MapGen(Rng(20261001), spec)
+    gen.force_quiet = True
+    L = refchk.layouts_of(spec)[b"TRIG"]
+    sw_fields = {}
+    for kind, table in (("c", gen.cond), ("a", gen.act)):
+        for tid, row in table.items():
+            ks = gen.kinds.get((kind, tid), {})
+            fs = [f for arg, f in row["args"] if ks.get(arg) == "RichSwitch"]
+            if fs:
+                sw_fields[(kind, tid)] = (fs[0], row)
+    if not any(k == "c" for k, _ in sw_fields) or not any(k == "a" for k, _ in sw_fields):
+        out.notes.append("switch-number probe skipped: no switch-typed argument found in the model classes")
+        return
+    numbers = [3, 6, 101, 113, 255]
+
+    def entry(kind, tid, number):
+        f, row = sw_fields[(kind, tid)]
+        rec = {n: 0 for n, _ in (L["cf"] if kind == "c" else L["af"])}
+        rec["_condition_id" if kind == "c" else "_action_id"] = tid
+        for arg, fld in row["args"]:
+            ak = gen.kinds.get((kind, tid), {}).get(arg, "int")
+            if ak in gen.enums:
+                rec[fld] = gen.enums[ak][0]
+        rec[f] = number
+        return rec
+
+    ctid = sorted(t for k, t in sw_fields if k == "c")[0]
+    atid = sorted(t for k, t in sw_fields if k == "a")[0]
+    zc = {n: 0 for n, _ in L["cf"]}
+    za = {n: 0 for n, _ in L["af"]}
+    trig = {"conds": ([entry("c", ctid, n) for n in numbers[:2]] + [zc] * 16)[:16], "acts": ([entry("a", atid, n) for n in numbers] + [za] * 64)[:64],
+            "execFlags": 0, "players": [1] + [0] * 26, "cur": 0}
+
+    def switch_refs(data):
+        refs = []
+        for name, _, payload in refchk.split_chunks(data):
+            if name != b"TRIG":
+                continue
+            csz = refchk.rec_size(L["cf"])
+            asz = refchk.rec_size(L["af"])
+            tsz = 16 * csz + 64 * asz + L["ew"] + 27 * L["pw"] + L["cw"]
+            for t in range(len(payload) // tsz):
+                for j in range(16):
+                    rec = refchk.read_rec(payload, t * tsz + j * csz, L["cf"])
+                    if ("c", rec["_condition_id"]) in sw_fields:
+                        refs.append((t, "c", j, rec[sw_fields[("c", rec["_condition_id"])][0]]))
+                for j in range(64):
+                    rec = refchk.read_rec(payload, t * tsz + 16 * csz + j * asz, L["af"])
+                    if ("a", rec["_action_id"]) in sw_fields:
+                        refs.append((t, "a", j, rec[sw_fields[("a", rec["_action_id"])][0]]))
+        return refs
+
+    base, _meta = gen.gen("editor")
+    chunks = [(n, p) for n, _, p in refchk.split_chunks(base)]
+    str_payload = next(p for n, p in chunks if n == b"STR ")
+    nstr = struct.unpack_from("<H", str_payload, 0)[0]
+    some_id = next((i for i in range(1, nstr + 1) if refchk.resolve_string(str_payload, 2, i)), 0)
+    for variant in ("no SWNM section", "SWNM naming none", "SWNM naming 6 and 113"):
+        cs = []
+        for n, p in chunks:
+            if n == b"SWNM":
+                continue
+            if n == b"TRIG":
+                p = p + refchk.build(L, {"triggers": [trig]})
+            cs.append((n, p))
+        if variant != "no SWNM section":
+            named = {6: some_id, 113: some_id} if variant.endswith("113") else {}
+            cs.append((b"SWNM", b"".join(struct.pack("<I", named.get(i, 0)) for i in range(256))))
+        data = refchk.join_chunks(cs)
+        before = switch_refs(data)
+        res, err = real_cycle(data)
+        desc = {"editor": "swnm-through-save", "variant": variant, "switch numbers referred to": numbers}
+        out.case("swnm-save:" + variant, data, sample=dict(desc, real=("OK" if res is not None else "ERR " + str(err))))
+        if res is None:
+            out.violations.append(dict(desc, oracle="an unedited map whose triggers refer to switches by number saves (no new switch slot is needed)", err=err, hex=data.hex()))
+            continue
+        after = switch_refs(res)
+        if before != after:
+            diff = [(b, a) for b, a in zip(before, after) if b != a][:4]
+            out.violations.append(dict(desc, oracle="a switch that has a slot keeps it, and distinct switches never share a slot: every switch number a trigger refers to is the same after an unedited save",
+                                       before=[r[3] for r in before][:12], after=[r[3] for r in after][:12], first_differences=diff, hex=data.hex()))
 
 
 def swnm_cases(out, rng, cfg, n, lines, reals):
